@@ -1027,3 +1027,81 @@ func VH_C11_cluster3_remove_leader() {
 	vAssert(step >= 3, "script-completed")
 	vReach("end")
 }
+
+//verif:check C10,C03,C06,C17 sched=coop maxsteps=2000000 onunwind=violation stubs=rt,timers,valuefile,abslog,snapfs,restart onblock=violation reach=update-committed,crashed,restarted,rejoined,closed,end desc="two real nodes end to end through a crash and restart of the follower: after a client update is committed on both, the follower process dies (its connections drop, its goroutines never run again); a new node is started on the same storage directory through the real raft.New/openStorage (what survived: the renamed term file and any log prefix that includes everything flushed); the leader's replication backs off, reconnects and catches it up. At the next quiescent point the restarted node has a term and vote no older than acknowledged, retains every entry it had acknowledged, its log equals the leader's, and its new state machine was fed exactly the committed updates, once, in order" bounds="leader + follower (third voter down); logs of 3 entries + no-op + 1 client update; the unflushed tail kept across the crash is any allowed prefix; round-robin goroutine schedule"
+func VH_C10_cluster2_follower_restart() {
+	cfgE := vClusterConfig().encode()
+	cfgE.index, cfgE.term = 1, 1
+	e2 := &entry{index: 2, term: 1, typ: entryUpdate, data: vBytes("payload2", 1)}
+	e3 := &entry{index: 3, term: 2, typ: entryUpdate, data: vBytes("payload3", 1)}
+	c := vNewCluster()
+	L := c.add(1, []*entry{cfgE, e2, e3}, 3, 1, 2)
+	F := c.add(2, []*entry{cfgE, e2, e3}, 3, 1, 2)
+	L.state, L.leader = Leader, 1
+	L.quorumWait = time.Hour
+	vDiskInitAt(vDirF, ".id", 7, 2)
+	c.wire()
+	c.start(1)
+	ne := &newEntry{task: newTask(), entry: &entry{typ: entryUpdate, data: vBytes("client.cmd", 1)}}
+	lfsm := L.fsm.FSM.(*vFSM)
+	var F2 *Raft
+	var f2fsm *vFSM
+	var ackTerm, ackLast uint64
+	step := 0
+	vSetIdleHook(func() {
+		switch step {
+		case 0:
+			vAssert(L.commitIndex == 4 && F.commitIndex == 4, "Y-settled")
+			vOffer(L.newEntryCh, ne)
+		case 1:
+			vAssert(isClosed(ne.Done()) && ne.Err() == nil && L.commitIndex == 5 && F.commitIndex == 5, "Y-update-committed-on-both")
+			vReach("update-committed")
+			// the follower process dies
+			ackTerm, ackLast = F.term, L.ldr.repls[2].status.matchIndex
+			c.isolate(2) // (the dead process's goroutines stay parked for ever: nothing reaches them any more)
+			vCrashedLogs[vDirF+"/log"] = c.logs[2]
+			vReach("crashed")
+			// ... and is started again on the same directory
+			f2fsm = &vFSM{}
+			opt := DefaultOptions()
+			opt.Logger = nil
+			r2, err := New(opt, f2fsm, vDirF)
+			vAssert(err == nil && r2 != nil, "Y-restart-opens")
+			if err != nil {
+				vStop()
+			}
+			F2 = r2
+			vAssert(F2.cid == 7 && F2.nid == 2, "Y-identity-survives")
+			vAssert(F2.term >= ackTerm, "Y-term-not-older-than-acknowledged")
+			vAssert(F2.lastLogIndex >= ackLast, "Y-acknowledged-entries-retained")
+			c.nodes[2], c.logs[2] = F2, vAbs(F2.log)
+			c.srv[2], c.dial[2] = vServe(F2)
+			go F2.fsm.runLoop()
+			go F2.stateLoop()
+			c.heal(2)
+			vReach("restarted")
+			// the leader's next heartbeat to the dead connection is due
+			vAssert(vFire(L.ldr.repls[2].timer), "Y-heartbeat-timer-armed")
+		case 2:
+			// the heartbeat failed: the leader knows the follower is unreachable and its replication is backing off
+			vAssert(!L.ldr.repls[2].status.noContact.IsZero() && L.state == Leader, "Y-leader-notices-the-drop-and-keeps-waiting-for-quorum")
+			vAssert(vFire(L.ldr.repls[2].timer), "Y-replication-backs-off-on-a-timer")
+		case 3:
+			vReach("rejoined")
+			vAssert(L.ldr.repls[2].status.noContact.IsZero(), "Y-leader-sees-the-follower-again")
+			vAssert(L.state == Leader && L.ldr.repls[2].status.matchIndex == L.lastLogIndex, "Y-leader-caught-the-restarted-node-up")
+			vAssert(F2.lastLogIndex == L.lastLogIndex && vLogsEqual(c.logs[1], c.logs[2], L.lastLogIndex), "Y-restarted-log-equals-leaders")
+			vAssert(F2.commitIndex == L.commitIndex && F2.term == L.term && F2.leader == 1, "Y-restarted-node-follows-and-commits")
+			vAssert(len(f2fsm.updates) == 3 && vSameUpdates(lfsm, f2fsm), "Y-new-state-machine-fed-the-committed-updates-once-in-order")
+			c.nodes[2].doClose(ErrServerClosed)
+			L.doClose(ErrServerClosed)
+			c.srv[1].shutdown()
+			c.srv[2].shutdown()
+		}
+		step++
+	})
+	L.stateLoop()
+	vReach("closed")
+	vAssert(step >= 4, "script-completed")
+	vReach("end")
+}
